@@ -3,6 +3,7 @@ package props
 import (
 	"fmt"
 	"go/token"
+	"go/types"
 	"sort"
 	"strings"
 
@@ -28,6 +29,59 @@ func init() {
 		},
 		Rules: c20Rules,
 	})
+}
+
+// c20Presized: the other way to give one result per target: the result slice
+// is made with len(records) elements, never appended to or re-sliced, and
+// every way round the loop stores a Code into the element of the loop's own
+// position.
+func c20Presized(p *core.Prog, r *core.Run, pub *ssa.Function, hdr *ssa.BasicBlock, body map[*ssa.BasicBlock]bool, mk *ssa.MakeSlice, ret *ssa.Return) {
+	l := p.X(mk.Len)
+	sized := l.Op == "call" && l.Name == "len" && l.Args[0].Op == "param" && l.Args[0].Name == "p2"
+	only := true
+	coded := map[*ssa.BasicBlock]bool{}
+	for _, ref := range *mk.Referrers() {
+		switch u := ref.(type) {
+		case *ssa.IndexAddr:
+			ph := forwardCounter(u.Index)
+			own := ph != nil && ph.Block() == hdr
+			for _, r2 := range *u.Referrers() {
+				fa, ok := r2.(*ssa.FieldAddr)
+				if !ok {
+					if !isRead(r2) {
+						only = false
+					}
+					continue
+				}
+				for _, r3 := range *fa.Referrers() {
+					if st, ok := r3.(*ssa.Store); ok && st.Addr == ssa.Value(fa) && own && fieldVar(fa) != nil && fieldVar(fa).Name() == "Code" {
+						coded[st.Block()] = true
+					}
+				}
+			}
+		case *ssa.Return, *ssa.DebugRef:
+		case *ssa.Call:
+			if bi, ok := u.Call.Value.(*ssa.Builtin); !ok || bi.Name() != "len" {
+				only = false
+			}
+		default:
+			only = false
+		}
+	}
+	// no way round the loop avoids the blocks that store a Code
+	avoid := false
+	for _, s := range hdr.Succs {
+		if !body[s] {
+			continue
+		}
+		reach := core.Reachable(s, coded)
+		for _, pr := range hdr.Preds {
+			if body[pr] && reach[pr] && !coded[pr] {
+				avoid = true
+			}
+		}
+	}
+	r.Check("C20.ONE", "results:returned", sized && only && !avoid, p.InstrPos(ret), "PublishECH returns a slice made with one element per record (%v), only written element-wise (%v), and every way round the loop stores a Code into the element at the loop's position (%v)", sized, only, !avoid)
 }
 
 func c20StopReason(f core.Fact, isInfo func(*core.Expr, string) bool) bool {
@@ -75,6 +129,10 @@ func c20Rules(p *core.Prog, r *core.Run) {
 		ph, ok := ret.Results[0].(*ssa.Phi)
 		if ok && ph.Block() == hdr {
 			resPhi = ph
+		}
+		if mk, isMk := ret.Results[0].(*ssa.MakeSlice); isMk && !ok {
+			c20Presized(p, r, pub, hdr, body, mk, ret)
+			continue
 		}
 		r.Check("C20.ONE", "results:returned", ok && ph.Block() == hdr, p.InstrPos(ret), "PublishECH returns the slice accumulated by the records loop")
 	}
@@ -193,8 +251,9 @@ func c20Rules(p *core.Prog, r *core.Run) {
 			if !ok {
 				continue
 			}
-			mt := p.X(mu.Map)
-			if !(mt.Op == "new" && strings.Contains(mt.Name, "idData")) {
+			// the snapshot: the map whose entries are the fetched record data
+			// (a local, or a field of a local that groups the call's state)
+			if mt, isMap := mu.Map.Type().Underlying().(*types.Map); !isMap || !strings.HasSuffix(mt.Elem().String(), "idData") {
 				continue
 			}
 			nSnap++
@@ -460,7 +519,16 @@ func c20Pages(p *core.Prog, r *core.Run, gzd *ssa.Function) {
 			if body[s] {
 				continue
 			}
-			if ret, ok := s.Instrs[len(s.Instrs)-1].(*ssa.Return); ok && !lastResultNil(ret) {
+			// (an inlined helper's error returns reach the caller's return through jumps)
+			t := s
+			for n := 0; n < 8; n++ {
+				if _, isJump := t.Instrs[len(t.Instrs)-1].(*ssa.Jump); isJump && len(t.Succs) == 1 && !body[t.Succs[0]] {
+					t = t.Succs[0]
+					continue
+				}
+				break
+			}
+			if ret, ok := t.Instrs[len(t.Instrs)-1].(*ssa.Return); ok && !lastResultNil(ret) {
 				continue // error exit
 			}
 			nExit++
@@ -468,8 +536,8 @@ func c20Pages(p *core.Prog, r *core.Run, gzd *ssa.Function) {
 			ok := false
 			// a condition computed beforehand (lastPage := a || b || c) stands for
 			// its alternatives: each of them must be an accepted reason
-			if len(fs) > 0 && fs[0].Op == "true" {
-				if alts := disjuncts(p, fs[0].L.Val); len(alts) > 1 {
+			if len(fs) > 0 && (fs[0].Op == "true" || fs[0].Op == "false") {
+				if alts := disjuncts(p, fs[0].L.Val, fs[0].Op == "true"); len(alts) > 1 {
 					all := true
 					for _, f := range alts {
 						all = all && c20StopReason(f, isInfo)
